@@ -9,6 +9,7 @@ import PeptVerif.Props.C01
 #print axioms Pept.parse_serialize
 #print axioms Pept.parse_serialize_include_plus
 #print axioms Pept.parse_any_section_order
+#print axioms Pept.parse_render
 #print axioms Pept.serialize_fixpoint
 #print axioms Pept.parse_serialize_multi_partial
 #print axioms Pept.parse_joined
